@@ -10,7 +10,8 @@ EXPLANATION = ("Static rules over the resolved MIR: RESET (every per-document fi
                "SINGLE (every single-document entry point turns a second document into the multiple-documents error before "
                "finishing), ITER (the three streaming iterators test `finished` first, set it on every path that ends the "
                "stream, and make progress in every loop), SKIP (the recovery loop pulls on every iteration).")
-ASSUMPTIONS = ["rustc's MIR (opt-level 0) faithfully represents the compiled crate",
+ASSUMPTIONS = ["the target's Deserialize implementation consumes at least one event per document (see C01)",
+               "rustc's MIR (opt-level 0) faithfully represents the compiled crate",
                "equality with per-document deserialization and the exact resume position after an error are runtime facts: not decided"]
 
 LE = "live_events::LiveEvents"
@@ -265,8 +266,12 @@ def rule_iter(ctx, fx, config):
                       "skip_to_next_document is called on a path where the document deserialized successfully: the following document is lost", config, ctx.where(f, sb))
         # PROGRESS: every cycle consumes an event
         nexts = [b for b, t in f.calls() if fx.callee(t) == proto.NEXT]
+        from .C01 import _consuming_blocks
+        adv = _consuming_blocks(f, fx)
         for comp in f.sccs():
-            ctx.check(bool(set(nexts) & comp), "PROGRESS", "C11:PROGRESS:%s" % f.npath, "every cycle of the iterator loop consumes an event",
+            rest = comp - adv
+            still = f.sccs(rest) if rest else []
+            ctx.check(not still, "PROGRESS", "C11:PROGRESS:%s" % f.npath, "every cycle of the iterator loop consumes an event, deserializes a document or skips one",
                       "the iterator loop has a cycle that consumes nothing (possible hang)", config, ctx.where(f))
         # null-document skipping is guarded by the null-likeness predicate
         nl = [b for b, t in f.calls() if fx.callee(t).endswith("scalar_is_nullish")]
